@@ -35,7 +35,7 @@ AUDITED = [
      "both copies are between slices of equal length: data (8 bytes) <- bytes[..8], data[..bytes.len()] <- bytes with bytes.len() <= 8"),
     (r"::(LFUPolicy|AsyncLFUPolicy)::add$", "std-op", r"Vec::drain\(\w+, .*RangeFrom",
      "drain(new_len..) with new_len = sample.len() - 1 <= len (the sample is non-empty here, see the index entry)"),
-    (r"^bbloom::Bloom::new$", "sub", r"get_size\(.*\)\.size - 1$|^64 - bbloom::get_size\(.*\)\.exp$",
+    (r"^bbloom::Bloom::new$", "sub", r"get_size\(.*\)\.(size|0) - 1$|^64 - bbloom::get_size\(.*\)\.(exp|1)$",
      "get_size yields size = 2^exp with 9 <= exp <= 63 (R14.5): size - 1 and 64 - exp do not underflow"),
     (r"CacheProcessor::track_admission", "sub", r"num_to_keep - 1$",
      "num_to_keep is the constant 100000 passed by finalize"),
